@@ -4,6 +4,7 @@
   line-protocol driver shared by the `dnssess`, `dnsfuzz srv` and `dnsexpire` harness components.
 -/
 import SA.Model.DnsServer
+import SA.Model.DnsHandler
 
 namespace SA.DnsServer
 open SA.Go SA.Go.Res
@@ -95,6 +96,7 @@ def knownErrors : List String :=
 
 def renderAns : Ans → String
   | .drop => "DROP"
+  | .ignored => "IGN"
   | .err c e => s!"{Char.ofNat c}:{if knownErrors.contains e then e else "other"}"
   | .version uid => s!"v:OK:{uid}"
   | .optionsOk => "o:OK"
@@ -186,8 +188,12 @@ def runLine (cd : Codec) (dom : List Nat) (timed : Option (List (Nat × Nat × L
            | some loops, .tick dt => Res.ok (sleepSweep loops dt σ (σ.now + dt), none)
            | _, _ => stepAns cd dom σ op) with
     | .panic => ";".intercalate ("PANIC" :: acc).reverse ++ "|"
-    | .ok (σ', a) =>
-      runLine cd dom timed σ' ops (match a with | some x => renderAns x :: acc | none => acc)
+    | .ok (σ', none) => runLine cd dom timed σ' ops acc
+    | .ok (σ', some x) =>
+      -- the answer passes through the communicator's handler (SA.Model.DnsHandler)
+      match handleRequest (retOf x) (match op with | .msg m => tsigOf m | _ => false) with
+      | .panic => ";".intercalate ("PANIC" :: acc).reverse ++ "|"
+      | .ok _ => runLine cd dom timed σ' ops (renderAns x :: acc)
 
 def splitAtDashes (toks : List String) : List String × List String :=
   (toks.takeWhile (· ≠ "--"), (toks.dropWhile (· ≠ "--")).drop 1)
